@@ -28,42 +28,48 @@ def filtration_history(rnd, steps, checks=True, attrs=False, nav=True, pool=None
         lines.append('check c13-begin f q%d' % i0)
     w.exec('check c13-begin f q%d' % i0)
     for _ in range(steps):
-        f = w.vars['f']
-        r = rnd.random()
-        vis = f.simplices(); pts = [s for s in vis if f.orderOf(s) == 0]
-        alln = list(impl.SimplicialComplex.simplices(f))
-        attr = ('{ sk i%d }' % rnd.randint(0, 5)) if attrs and rnd.random() < 0.5 else '-'
-        if r < 0.22:
-            emit('setindex f q%d' % rnd.choice(INDEX_SET))
-        elif r < 0.42:
-            free = [x for x in pool if not f.containsSimplexAtSomeIndex(x)]
-            n = rnd.choice(free) if free and rnd.random() < 0.85 else (rnd.choice(alln) if alln and rnd.random() < 0.5 else None)
-            emit('add f [ ] %s %s' % ('-' if n is None else tok(n), attr))
-        elif r < 0.55 and len(pts) >= 2:
-            k = rnd.randint(1, min(2, len(pts) - 1))
-            V = rnd.sample(pts, k + 1)
-            fs = [f.simplexWithBasis([x for x in V if x is not y]) for y in V]
-            if all(x is not None for x in fs) and f.simplexWithBasis(V) is None and all(x in f for x in fs):
-                emit('add f %s - %s' % (list_s(fs), attr))
+      try:
+            f = w.vars['f']
+            r = rnd.random()
+            vis = f.simplices(); pts = [s for s in vis if f.orderOf(s) == 0]
+            alln = list(impl.SimplicialComplex.simplices(f))
+            attr = ('{ sk i%d }' % rnd.randint(0, 5)) if attrs and rnd.random() < 0.5 else '-'
+            if r < 0.22:
+                emit('setindex f q%d' % rnd.choice(INDEX_SET))
+            elif r < 0.42:
+                free = [x for x in pool if not f.containsSimplexAtSomeIndex(x)]
+                n = rnd.choice(free) if free and rnd.random() < 0.85 else (rnd.choice(alln) if alln and rnd.random() < 0.5 else None)
+                emit('add f [ ] %s %s' % ('-' if n is None else tok(n), attr))
+            elif r < 0.55 and len(pts) >= 2:
+                k = rnd.randint(1, min(2, len(pts) - 1))
+                V = rnd.sample(pts, k + 1)
+                fs = [f.simplexWithBasis([x for x in V if x is not y]) for y in V]
+                if all(x is not None for x in fs) and f.simplexWithBasis(V) is None and all(x in f for x in fs):
+                    emit('add f %s - %s' % (list_s(fs), attr))
+                else:
+                    emit('addb f %s - %s' % (list_s(V), attr)) if _addb_ok(f, V) else None
+            elif r < 0.72 and (pts or pool):
+                m = rnd.randint(2, 3)
+                cand = list(pts) + [x for x in pool if not f.containsSimplexAtSomeIndex(x)]
+                if len(cand) >= m:
+                    V = rnd.sample(cand, m)
+                    if _addb_ok(f, V):
+                        emit('addb f %s - %s' % (list_s(V), attr))
+            elif r < 0.86 and alln:
+                emit('del f %s' % tok(rnd.choice(alln if rnd.random() < 0.7 else vis or alln)))
+            elif r < 0.9 and nav:
+                if f.getIndex() in f.indices():
+                    emit(rnd.choice(['next f', 'prev f', 'min f', 'max f']))
+            elif r < 0.94:
+                emit('snapf s f', bracket=False)
+                if checks: lines.append('check wf s')
             else:
-                emit('addb f %s - %s' % (list_s(V), attr)) if _addb_ok(f, V) else None
-        elif r < 0.72 and (pts or pool):
-            m = rnd.randint(2, 3)
-            cand = list(pts) + [x for x in pool if not f.containsSimplexAtSomeIndex(x)]
-            if len(cand) >= m:
-                V = rnd.sample(cand, m)
-                if _addb_ok(f, V):
-                    emit('addb f %s - %s' % (list_s(V), attr))
-        elif r < 0.86 and alln:
-            emit('del f %s' % tok(rnd.choice(alln if rnd.random() < 0.7 else vis or alln)))
-        elif r < 0.9 and nav:
-            if f.getIndex() in f.indices():
-                emit(rnd.choice(['next f', 'prev f', 'min f', 'max f']))
-        elif r < 0.94:
-            emit('snapf s f', bracket=False)
-            if checks: lines.append('check wf s')
-        else:
-            emit('complexes f p', bracket=False)
+                emit('complexes f p', bracket=False)
+      except Exception:
+        # a read-only query raised while the next request was being chosen: stop extending this
+        # history (running it shows the broken state); keep what there is
+        stats['generator_stopped_by_exception'] = stats.get('generator_stopped_by_exception', 0) + 1
+        break
     return lines, stats
 
 def stepped_iteration(rnd, lines, mode):
@@ -84,7 +90,10 @@ def stepped_iteration(rnd, lines, mode):
         if rnd.random() < 0.6:
             emit(rnd.choice(['setindex f %s' % idx_tok(rnd.choice(inds)), 'next f', 'prev f', 'min f', 'max f']))
         if k > 0 and rnd.random() < 0.7:
-            v = 'p%d' % rnd.randrange(k); c = w.vars[v]; ss = c.simplices()
+            v = 'p%d' % rnd.randrange(k); c = w.vars.get(v)
+            if c is None:
+                return out            # an earlier step failed on the implementation: running the script shows it
+            ss = c.simplices()
             r = rnd.random()
             if r < 0.4 or not ss:
                 emit('add %s [ ] sLEAK%d { sleak i%d }' % (v, k, k))
